@@ -20,6 +20,7 @@ import (
 	"context"
 	"errors"
 	"fmt"
+	"slices"
 	"sync"
 	"sync/atomic"
 	"testing/synctest"
@@ -288,14 +289,40 @@ func (r *c15Run) kill(c *c15Caller) {
 	r.nCallers--
 }
 
+// c15WantFrame is a control frame the reference model demands (or, if optional, allows) for one event.
+type c15WantFrame struct {
+	max      bool // MAX_STREAMS (else STREAMS_BLOCKED)
+	t        int
+	val      int
+	optional bool
+	seen     bool
+}
+
 type c15Want struct {
-	blocked    int // STREAMS_BLOCKED: 0 none, 1 required, 2 allowed
-	blockedT   int
-	blockedLim int
-	maxStreams bool // MAX_STREAMS required
-	maxT       int
-	maxVal     int
-	created    []protocol.StreamID
+	frames  []c15WantFrame
+	created []protocol.StreamID
+}
+
+func (w *c15Want) add(o c15Want) {
+	w.frames = append(w.frames, o.frames...)
+	w.created = append(w.created, o.created...)
+}
+
+func c15WantBlocked(t, lim int, optional bool) c15Want {
+	return c15Want{frames: []c15WantFrame{{t: t, val: lim, optional: optional}}}
+}
+
+func c15WantMax(t, val int) c15Want {
+	return c15Want{frames: []c15WantFrame{{max: true, t: t, val: val}}}
+}
+
+func (w *c15Want) find(isMax bool, t int) *c15WantFrame {
+	for i := range w.frames {
+		if f := &w.frames[i]; f.max == isMax && f.t == t && !f.seen {
+			return f
+		}
+	}
+	return nil
 }
 
 // checkEffects compares the control frames and stream constructions recorded since the last
@@ -308,61 +335,75 @@ func (r *c15Run) checkEffects(w c15Want) {
 	if completed != 0 {
 		r.st["unexpected_completion_callbacks"] += int64(completed)
 	}
-	gotBlocked, gotMax := false, false
 	for _, f := range frames {
 		switch f := f.(type) {
 		case *wire.StreamsBlockedFrame:
 			r.cnt("frames_streams_blocked")
-			t := int(f.Type)
+			t := int(f.Type) & 1
 			lim := int(f.StreamLimit)
-			o := &r.out[t&1]
+			o := &r.out[t]
 			o.blockedSent[lim]++
+			wf := w.find(false, t)
 			switch {
 			case o.blockedSent[lim] > 1:
 				r.fail("C15|outgoing|streams-blocked-duplicate", "STREAMS_BLOCKED(type %d, limit %d) queued %d times", t, lim, o.blockedSent[lim])
-			case w.blocked == 0:
-				r.fail("C15|outgoing|streams-blocked-spurious", "STREAMS_BLOCKED(type %d, limit %d) queued although no caller is blocked by the limit %d", t, lim, o.peerMax)
-			case t != w.blockedT || lim != w.blockedLim || gotBlocked:
-				r.fail("C15|outgoing|streams-blocked-wrong-limit", "STREAMS_BLOCKED(type %d, limit %d) queued, expected (type %d, limit %d)", t, lim, w.blockedT, w.blockedLim)
+			case wf == nil:
+				r.fail("C15|outgoing|streams-blocked-spurious", "STREAMS_BLOCKED(type %d, limit %d) queued although no caller became blocked by the limit (%d) in this event", t, lim, o.peerMax)
+			case lim != wf.val:
+				r.fail("C15|outgoing|streams-blocked-wrong-limit", "STREAMS_BLOCKED(type %d, limit %d) queued, the peer's limit is %d", t, lim, wf.val)
 			}
-			gotBlocked = true
+			if wf != nil {
+				wf.seen = true
+			}
 		case *wire.MaxStreamsFrame:
 			r.cnt("frames_max_streams")
-			t := int(f.Type)
+			t := int(f.Type) & 1
 			v := int(f.MaxStreamNum)
-			in := &r.in[t&1]
+			in := &r.in[t]
+			wf := w.find(true, t)
 			switch {
 			case v < in.advertised:
 				r.fail("C15|incoming|max-streams-decreased", "MAX_STREAMS(type %d) %d after %d", t, v, in.advertised)
 			case v > in.maxNum+in.gone:
 				r.fail("C15|incoming|credit-without-completion", "MAX_STREAMS(type %d) %d with configured limit %d and %d fully completed streams (%d open)", t, v, in.maxNum, in.gone, in.opened-in.gone)
-			case !w.maxStreams || t != w.maxT || gotMax:
+			case wf == nil:
 				r.fail("C15|incoming|max-streams-spurious", "MAX_STREAMS(type %d) %d queued although no stream of that type completed in this event", t, v)
-			case v != w.maxVal:
-				r.fail("C15|incoming|credit-not-issued", "MAX_STREAMS(type %d) %d queued, %d streams fully completed: expected %d", t, v, in.gone, w.maxVal)
+			case v != wf.val:
+				r.fail("C15|incoming|credit-not-issued", "MAX_STREAMS(type %d) %d queued, %d streams fully completed: expected %d", t, v, in.gone, wf.val)
+			}
+			if wf != nil {
+				wf.seen = true
 			}
 			if v > in.advertised {
 				in.advertised = v
 			}
-			gotMax = true
 		default:
 			r.fail("C15|frames|unexpected-control-frame", "control frame %T queued by the streams map", f)
 		}
 	}
-	if w.blocked == 1 && !gotBlocked {
-		r.fail("C15|outgoing|streams-blocked-missing", "a caller is blocked by limit %d of type %d, but no STREAMS_BLOCKED was queued for it", w.blockedLim, w.blockedT)
+	for _, wf := range w.frames {
+		if wf.seen || wf.optional {
+			continue
+		}
+		if wf.max {
+			r.fail("C15|incoming|credit-not-issued", "stream of type %d fully completed (%d in total, limit %d), but no MAX_STREAMS was queued", wf.t, r.in[wf.t].gone, r.in[wf.t].maxNum)
+		} else {
+			r.fail("C15|outgoing|streams-blocked-missing", "a caller is blocked by limit %d of type %d, but no STREAMS_BLOCKED was queued for it", wf.val, wf.t)
+		}
 	}
-	if w.maxStreams && !gotMax {
-		r.fail("C15|incoming|credit-not-issued", "stream of type %d fully completed (%d in total, limit %d), but no MAX_STREAMS was queued", w.maxT, r.in[w.maxT].gone, r.in[w.maxT].maxNum)
+	// stream constructions: per ID class (type x initiator) in order; different classes may be
+	// constructed by different goroutines, so their relative order is not defined
+	var got, exp [4][]protocol.StreamID
+	for _, id := range created {
+		got[id&3] = append(got[id&3], id)
 	}
-	if len(created) != len(w.created) {
-		r.fail("C15|streams|created-ids", "streams constructed %v, expected %v", created, w.created)
-	} else {
-		for i := range created {
-			if created[i] != w.created[i] {
-				r.fail("C15|streams|created-ids", "streams constructed %v, expected %v", created, w.created)
-				break
-			}
+	for _, id := range w.created {
+		exp[id&3] = append(exp[id&3], id)
+	}
+	for k := 0; k < 4; k++ {
+		if !slices.Equal(got[k], exp[k]) {
+			r.fail("C15|streams|created-ids", "streams constructed %v, expected %v", created, w.created)
+			break
 		}
 	}
 	for t := 0; t < 2; t++ {
@@ -370,7 +411,7 @@ func (r *c15Run) checkEffects(w c15Want) {
 		if in.opened-in.gone > in.maxNum {
 			r.fail("C15|incoming|concurrency-exceeded", "%d incoming streams of type %d open concurrently, configured limit %d", in.opened-in.gone, t, in.maxNum)
 		}
-		if in.advertised != in.maxNum+in.gone && r.sig == "" {
+		if in.advertised != in.maxNum+in.gone {
 			r.fail("C15|incoming|credit-not-issued", "advertised limit %d of type %d, configured %d + %d fully completed", in.advertised, t, in.maxNum, in.gone)
 		}
 	}
@@ -384,7 +425,7 @@ func (r *c15Run) wantBlockedFrame(t int) c15Want {
 	if o.blockedSent[o.peerMax] > 0 {
 		return c15Want{}
 	}
-	return c15Want{blocked: 1, blockedT: t, blockedLim: o.peerMax}
+	return c15WantBlocked(t, o.peerMax, false)
 }
 
 // openedOK folds a successful local open into the model.
@@ -402,24 +443,38 @@ func (r *c15Run) openedOK(t int, id protocol.StreamID, what string) {
 }
 
 // serveWaiters checks that exactly the first min(#waiters, credit) blocked OpenStreamSync callers
-// of type t have returned, with consecutive IDs in arrival order.
+// of type t have returned, with consecutive IDs in arrival order, and that all others are still blocked.
 func (r *c15Run) serveWaiters(t int) (created []protocol.StreamID) {
 	o := &r.out[t]
-	k := min(len(o.waiters), max(0, o.peerMax-o.opened))
+	credit := max(0, o.peerMax-o.opened)
 	if r.lenient() {
-		k = 0
+		credit = 0
 	}
-	nOK := 0
+	k := min(len(o.waiters), credit)
+	var okIdx []int
 	for i, w := range o.waiters {
 		if w.done.Load() && w.ok {
-			nOK++
-			if i >= k {
-				if nOK > k && k == len(o.waiters[:i]) && o.opened+k >= o.peerMax {
-					r.fail("C15|outgoing|limit-exceeded", "blocked OpenStreamSync caller #%d returned stream %d with %d opened and limit %d", i, w.id, o.opened, o.peerMax)
-				} else {
-					r.fail("C15|outgoing|sync-order", "blocked OpenStreamSync caller #%d (arrival order) returned stream %d before caller #%d", i, w.id, nOK-1)
-				}
-			}
+			okIdx = append(okIdx, i)
+		}
+	}
+	prefix := true
+	for j, i := range okIdx {
+		if i != j {
+			prefix = false
+		}
+	}
+	switch {
+	case len(okIdx) > credit:
+		w := o.waiters[okIdx[len(okIdx)-1]]
+		r.fail("C15|outgoing|limit-exceeded", "%d blocked OpenStreamSync callers returned streams (last: %d) with %d opened and peer's limit %d", len(okIdx), w.id, o.opened, o.peerMax)
+	case !prefix:
+		r.fail("C15|outgoing|sync-order", "blocked OpenStreamSync callers served out of arrival order: callers %v of %d returned streams, credit for %d", okIdx, len(o.waiters), credit)
+	case len(okIdx) < k:
+		w := o.waiters[len(okIdx)]
+		if w.done.Load() {
+			r.fail("C15|outgoing|sync-spurious-error", "blocked OpenStreamSync caller #%d returned %v although credit arrived and its context is live", len(okIdx), w.err)
+		} else {
+			r.fail("C15|outgoing|waiter-not-served", "OpenStreamSync caller #%d of type %d still blocked with %d opened and peer's limit %d", len(okIdx), t, o.opened+len(okIdx), o.peerMax)
 		}
 	}
 	if r.sig != "" {
@@ -427,40 +482,26 @@ func (r *c15Run) serveWaiters(t int) (created []protocol.StreamID) {
 	}
 	for i := 0; i < k; i++ {
 		w := o.waiters[i]
-		if !w.done.Load() {
-			later := false
-			for _, x := range o.waiters[i+1:] {
-				if x.done.Load() && x.ok {
-					later = true
+		if want := r.sid(t, true, o.opened+1); w.id != want {
+			inSet := false
+			for j := 0; j < k; j++ {
+				if w.id == r.sid(t, true, o.opened+1+j-i) {
+					inSet = true
 				}
 			}
-			if later {
-				r.fail("C15|outgoing|sync-order", "OpenStreamSync caller #%d still blocked while a later caller was served", i)
-			} else {
-				r.fail("C15|outgoing|waiter-not-served", "OpenStreamSync caller #%d of type %d still blocked with %d opened and limit %d", i, t, o.opened, o.peerMax)
+			if inSet {
+				r.fail("C15|outgoing|sync-order", "OpenStreamSync caller #%d (arrival order) got stream %d, expected %d", i, w.id, want)
+				return created
 			}
-			return created
-		}
-		if !w.ok {
-			r.fail("C15|outgoing|sync-spurious-error", "blocked OpenStreamSync caller #%d returned %v although credit arrived and its context is live", i, w.err)
-			return created
-		}
-		want := r.sid(t, true, o.opened+1)
-		if w.id != want {
-			// was the ID taken by a later caller?  then this is an ordering failure
-			r.fail("C15|outgoing|sync-order", "OpenStreamSync caller #%d (arrival order) got stream %d, expected %d", i, w.id, want)
-			return created
 		}
 		created = append(created, w.id)
 		r.openedOK(t, w.id, "OpenStreamSync")
 		r.cnt("waiters_served")
-	}
-	for _, w := range o.waiters[:k] {
 		r.reap(w)
 	}
 	o.waiters = o.waiters[k:]
 	// the rest must still be blocked (or, when closed / reset, may have failed)
-	rest := o.waiters[:0]
+	var rest []*c15Caller
 	for _, w := range o.waiters {
 		if w.done.Load() {
 			if !r.lenient() {
@@ -545,25 +586,9 @@ func (r *c15Run) step(op c15Op) bool {
 			InitialMaxStreamDataBidiRemote: 1 << 16, InitialMaxStreamDataUni: 1 << 16,
 		})
 		r.settle()
-		// bidi first, then uni: the order of HandleTransportParameters; only one STREAMS_BLOCKED per type
-		// can result, so the two types are checked one after the other
 		var w c15Want
-		for _, tt := range []int{c15Bidi, c15Uni} {
-			n := op.N
-			if tt == c15Uni {
-				n = op.W
-			}
-			w2 := r.credit(tt, n)
-			w.created = append(w.created, w2.created...)
-			if w2.blocked != 0 {
-				if w.blocked != 0 {
-					// two STREAMS_BLOCKED frames (one per type): check the first separately
-					r.checkBlockedPair(w, w2)
-					return true
-				}
-				w.blocked, w.blockedT, w.blockedLim = w2.blocked, w2.blockedT, w2.blockedLim
-			}
-		}
+		w.add(r.credit(c15Bidi, op.N))
+		w.add(r.credit(c15Uni, op.W))
 		r.checkEffects(w)
 	case "max":
 		r.m.HandleMaxStreamsFrame(&wire.MaxStreamsFrame{Type: r.stype(t), MaxStreamNum: protocol.StreamNum(op.N)})
@@ -630,7 +655,7 @@ func (r *c15Run) step(op c15Op) bool {
 			w = r.wantBlockedFrame(t)
 			r.cnt("sync_blocked")
 			r.cls["sync-blocked"]++
-			r.st["max_queue"] = max(r.st["max_queue"], int64(len(o.waiters)))
+			r.st["max:queue"] = max(r.st["max:queue"], int64(len(o.waiters)))
 		}
 		r.checkEffects(w)
 	case "csync":
@@ -674,11 +699,13 @@ func (r *c15Run) step(op c15Op) bool {
 		o.waiters = o.waiters[1:]
 		r.reap(head)
 		created = append(created, r.serveWaiters(t)...)
-		w := c15Want{created: created, blockedT: t, blockedLim: newMax}
+		w := c15Want{created: created}
 		if len(o.waiters) > 0 {
-			w.blocked = 1
+			w.add(c15WantBlocked(t, newMax, false))
 		} else if newMax < preOpened+preW {
-			w.blocked = 2
+			// the limit did not cover the queue as it was when MAX_STREAMS arrived, if the
+			// cancellation had not been processed yet: the frame is legitimate, not required
+			w.add(c15WantBlocked(t, newMax, true))
 		}
 		r.checkEffects(w)
 	case "acc", "bacc":
@@ -752,7 +779,7 @@ func (r *c15Run) step(op c15Op) bool {
 			in.deleted[op.N] = true
 			if op.N <= in.accepted {
 				in.gone++
-				w.maxStreams, w.maxT, w.maxVal = true, t, in.maxNum+in.gone
+				w = c15WantMax(t, in.maxNum+in.gone)
 				r.cls["del-accepted"]++
 			} else {
 				r.cls["del-unaccepted"]++
@@ -804,29 +831,6 @@ func (r *c15Run) step(op c15Op) bool {
 	return true
 }
 
-func (r *c15Run) checkBlockedPair(a, b c15Want) {
-	// HandleTransportParameters left callers of both types blocked: two STREAMS_BLOCKED frames, bidi first.
-	r.mu.Lock()
-	frames := r.frames
-	r.mu.Unlock()
-	var first, second []wire.Frame
-	for _, f := range frames {
-		if sb, ok := f.(*wire.StreamsBlockedFrame); ok && int(sb.Type) == b.blockedT {
-			second = append(second, f)
-		} else {
-			first = append(first, f)
-		}
-	}
-	r.mu.Lock()
-	r.frames = first
-	r.mu.Unlock()
-	r.checkEffects(a)
-	r.mu.Lock()
-	r.frames = second
-	r.mu.Unlock()
-	r.checkEffects(c15Want{blocked: b.blocked, blockedT: b.blockedT, blockedLim: b.blockedLim})
-}
-
 // credit folds a new peer limit n for outgoing streams of type t into the model.
 func (r *c15Run) credit(t, n int) c15Want {
 	o := &r.out[t]
@@ -839,7 +843,7 @@ func (r *c15Run) credit(t, n int) c15Want {
 	}
 	w := c15Want{created: r.serveWaiters(t)}
 	if changed && len(o.waiters) > 0 {
-		w.blocked, w.blockedT, w.blockedLim = 1, t, o.peerMax
+		w.add(c15WantBlocked(t, o.peerMax, false))
 	}
 	return w
 }
@@ -858,7 +862,7 @@ func (r *c15Run) acceptedOK(t int, id protocol.StreamID) (w c15Want) {
 	r.cnt("accepted")
 	if in.deleted[in.accepted] {
 		in.gone++
-		w.maxStreams, w.maxT, w.maxVal = true, t, in.maxNum+in.gone
+		w = c15WantMax(t, in.maxNum+in.gone)
 		r.cls["acc-deleted"]++
 		r.cnt("accepted_after_delete")
 	} else {
@@ -956,8 +960,7 @@ func (r *c15Run) frame(op c15Op) {
 				r.fail("C15|incoming|accept-spurious-error", "blocked AcceptStream returned %v when a stream was opened", c.err)
 				r.reap(c)
 			} else {
-				w2 := r.acceptedOK(t, c.id)
-				w.maxStreams, w.maxT, w.maxVal = w2.maxStreams, w2.maxT, w2.maxVal
+				w.add(r.acceptedOK(t, c.id))
 				r.reap(c)
 				r.cnt("acceptor_served")
 			}
